@@ -1258,7 +1258,19 @@ def _run_several_data(case, ck):
                 try:
                     ll = float(m.lnlike([r], DATA[nm]))
                     lpost = float(m.lnposterior([r], DATA[nm]))
-                    ck.trans += 2
+                    # the same likelihood asked for right after the prior of
+                    # ANOTHER point (priors of a batch first, likelihoods
+                    # afterwards)
+                    m.lnprior([0.95 - r])
+                    ll2 = float(m.lnlike([r], DATA[nm]))
+                    m.lnprior([0.95 - r])
+                    lpost2 = float(m.lnposterior([r], DATA[nm]))
+                    ck.trans += 6
+                    ck.true("lnlike-formula:after-lnprior-elsewhere",
+                            ll2 == ll and lpost2 == lpost,
+                            "%s, data %s: lnlike(%r) is %r, but %r right "
+                            "after lnprior(%r); lnposterior %r / %r" %
+                            (kind, nm, r, ll, ll2, 0.95 - r, lpost, lpost2))
                 except Exception as e:          # noqa
                     ck.true("lnlike-formula:several-data", False, "%s, data "
                             "sets %s, step %d raised %s: %s" %
